@@ -337,6 +337,18 @@ func handle(line string) string {
 			return "err " + kindOf(err)
 		}
 		return "ok " + natsStr(c)
+	case "conwayseq":
+		// several look-ups in one process, in the given order (anything memoised between calls shows)
+		var outs []string
+		for i := 1; i+1 < len(t); i += 2 {
+			c, err := conway.Lookup(u(t[i]), u(t[i+1]))
+			if err != nil {
+				outs = append(outs, "err "+kindOf(err))
+			} else {
+				outs = append(outs, "ok "+natsStr(c))
+			}
+		}
+		return strings.Join(outs, " ; ")
 	case "conwayin":
 		c, err := conway.LookupIn(u(t[2]), u(t[3]), unhex(t[1]))
 		if err != nil {
